@@ -601,10 +601,18 @@ impl Probe for Z {
     }
 }
 
-/// symbolic owner count in the range every history can reach
+/// symbolic owner count in the range every history can reach. The property lets the abort strike
+/// "once the count has passed half the address space"; the exact trip point (isize::MAX, +1) is a
+/// licence (C16), so counts that must behave normally stop at isize::MAX - 1 and counts that must
+/// abort start at isize::MAX + 2 (`overflow_count`).
 pub fn any_count() -> usize {
     let n: usize = kani::any();
-    kani::assume(n >= 1 && n <= isize::MAX as usize);
+    kani::assume(n >= 1 && n < isize::MAX as usize);
+    n
+}
+pub fn overflow_count() -> usize {
+    let n: usize = kani::any();
+    kani::assume(n > isize::MAX as usize + 1);
     n
 }
 
